@@ -119,6 +119,21 @@ def obs_sx(o):
         return ["qflows", o.get("name") or "-", strata_sx(o.get("sf")), strata_sx(o.get("df"))]
     if k == "oracle":
         return ["oracle"]
+    if k == "history":
+        calls = []
+        for c in o["calls"]:
+            if c["call"] == "run":
+                calls.append(["crun", c["solver"], bool(c.get("rebuild", False)), params_sx(c.get("params"))])
+            elif c["call"] == "get_runner":
+                calls.append(["cgetrunner", c["solver"], "none" if c.get("dyn") is None else ["dyn"] + list(c["dyn"]),
+                              params_sx(c.get("params"))])
+            elif c["call"] == "runner_run":
+                calls.append(["crunnerrun", str(c["k"]), params_sx(c.get("params"))])
+            elif c["call"] == "set_defaults":
+                calls.append(["csetdefaults", params_sx(c.get("params"))])
+            else:
+                raise ValueError(c)
+        return ["history"] + calls
     raise ValueError(o)
 
 
